@@ -22,6 +22,10 @@ def levelRegs (e : List Ctx) (s : Vm) : Regs :=
   | [] => s.regs
   | c :: _ => c.regs
 
+/-- control is outside every activation ⇒ no current program (true in every reachable state: the outermost
+RunProgram keeps an empty context on the call stack while it runs, `__call` from idle pushes one) -/
+def Inv (s : Vm) : Prop := s.callStack = [] → s.prg = none ∧ s.sb = -1
+
 /-- nothing of the control state changed (pc, result, job queue, interrupt flag, ghost fields may) -/
 structure Same (s s' : Vm) : Prop where
   sp : s'.sp = s.sp
@@ -33,17 +37,6 @@ structure Same (s s' : Vm) : Prop where
   is : s'.iterStack = s.iterStack
   rs : s'.refStack = s.refStack
 
-/-- like `Same`, but iterator / reference records may have been left behind -/
-structure SameUpTo (s s' : Vm) : Prop where
-  sp : s'.sp = s.sp
-  regs : s'.regs = s.regs
-  stash : s'.stash = s.stash
-  privEnv : s'.privEnv = s.privEnv
-  cs : s'.callStack = s.callStack
-  ts : s'.tryStack = s.tryStack
-  is : ∃ e, s'.iterStack = s.iterStack ++ e
-  rs : ∃ e, s'.refStack = s.refStack ++ e
-
 /-- an abrupt ending inside one run loop only *extends* the stacks; the extra try frames are JS
 frames (never a boundary marker) and, for a catchable throw, already consumed -/
 structure Ext (cons : Bool) (s s' : Vm) : Prop where
@@ -53,17 +46,21 @@ structure Ext (cons : Bool) (s s' : Vm) : Prop where
   ts : ∃ e, s'.tryStack = e ++ s.tryStack ∧
         ∀ f ∈ e, f.catchPos ≠ tryPanicMarker ∧ (cons = true → isConsumed f = true)
 
-def Good (s : Vm) (r : Res) : Prop :=
+/-- only an uncatchable ending may have changed the interrupt flag -/
+def Quiet (s : Vm) (r : Res) : Prop := r.1 ≠ .fatal → r.2.interrupted = s.interrupted
+
+def GoodCtl (s : Vm) (r : Res) : Prop :=
   match r.1 with
   | .normal => Same s r.2
   | .thrown => Ext true s r.2
   | .fatal => Ext false s r.2
-  | .wrecked => Ext false s r.2
   | .stuck => False
 
-/-- what a Go-side boundary guarantees -/
-def ApiGood (s : Vm) (r : Res) : Prop :=
-  r.1 ≠ .stuck ∧ SameUpTo s r.2 ∧ (r.1 ≠ .wrecked → Same s r.2)
+/-- the run-loop discipline of a behaviour started in `s` -/
+def Good (s : Vm) (r : Res) : Prop := GoodCtl s r ∧ Quiet s r
+
+/-- what a Go-side boundary guarantees, for every ending -/
+def ApiGood (s : Vm) (r : Res) : Prop := r.1 ≠ .stuck ∧ Same s r.2 ∧ Quiet s r
 
 theorem Same.refl (s : Vm) : Same s s := ⟨rfl, rfl, rfl, rfl, rfl, rfl, rfl, rfl⟩
 
@@ -71,16 +68,20 @@ theorem Same.trans {a b c : Vm} (h1 : Same a b) (h2 : Same b c) : Same a c :=
   ⟨h2.sp.trans h1.sp, h2.regs.trans h1.regs, h2.stash.trans h1.stash, h2.privEnv.trans h1.privEnv,
    h2.cs.trans h1.cs, h2.ts.trans h1.ts, h2.is.trans h1.is, h2.rs.trans h1.rs⟩
 
-theorem Same.toUpTo {a b : Vm} (h : Same a b) : SameUpTo a b :=
-  ⟨h.sp, h.regs, h.stash, h.privEnv, h.cs, h.ts, ⟨[], by simp [h.is]⟩, ⟨[], by simp [h.rs]⟩⟩
+theorem Same.inv {a b : Vm} (h : Same a b) (hi : Inv a) : Inv b := by
+  intro hc
+  have hr := h.regs
+  simp only [Vm.regs, Regs.mk.injEq] at hr
+  have := hi (by rw [← h.cs]; exact hc)
+  exact ⟨hr.1.trans this.1, hr.2.1.trans this.2⟩
 
-theorem SameUpTo.trans {a b c : Vm} (h1 : SameUpTo a b) (h2 : SameUpTo b c) : SameUpTo a c := by
-  obtain ⟨e1, he1⟩ := h1.is
-  obtain ⟨e2, he2⟩ := h2.is
-  obtain ⟨f1, hf1⟩ := h1.rs
-  obtain ⟨f2, hf2⟩ := h2.rs
-  exact ⟨h2.sp.trans h1.sp, h2.regs.trans h1.regs, h2.stash.trans h1.stash, h2.privEnv.trans h1.privEnv,
-    h2.cs.trans h1.cs, h2.ts.trans h1.ts, ⟨e1 ++ e2, by simp [he2, he1]⟩, ⟨f1 ++ f2, by simp [hf2, hf1]⟩⟩
+theorem inv_of_eq {a b : Vm} (hr : b.regs = a.regs) (hc : b.callStack = a.callStack) (hi : Inv a) : Inv b := by
+  intro h
+  simp only [Vm.regs, Regs.mk.injEq] at hr
+  have := hi (by rw [← hc]; exact h)
+  exact ⟨hr.1.trans this.1, hr.2.1.trans this.2⟩
+
+theorem inv_of_ne {b : Vm} (h : b.callStack ≠ []) : Inv b := fun hc => absurd hc h
 
 theorem Same.toExt {a b : Vm} (c : Bool) (h : Same a b) : Ext c a b :=
   ⟨⟨[], by simp [h.cs, levelRegs, h.regs]⟩, ⟨[], by simp [h.is]⟩, ⟨[], by simp [h.rs]⟩,
@@ -117,70 +118,59 @@ theorem Ext.trans {a b c : Vm} {k : Bool} (h1 : Ext k a b) (h2 : Ext k b c) : Ex
 theorem Same.ext_left {a b c : Vm} {k : Bool} (h1 : Same a b) (h2 : Ext k b c) : Ext k a c :=
   (h1.toExt k).trans h2
 
-
 /-! ### hypotheses on the interpreter for sub-behaviours (open recursion) -/
 
-def HypG (runF : RunF) : Prop := ∀ b s, Good s (runF b s)
-def HypA (runF : RunF) : Prop := ∀ b s, ApiGood s (runF (.api .try_ b) s)
+def HypG (runF : RunF) : Prop := ∀ b s, Inv s → Good s (runF b s)
+def HypA (runF : RunF) : Prop := ∀ b s, Inv s → ApiGood s (runF (.api .try_ b) s)
 
-theorem closeIters_spec {runF : RunF} (HA : HypA runF) : ∀ (items : List IterItem) (s : Vm),
-    SameUpTo s (closeIters runF items s).2 ∧
-    ((closeIters runF items s).1 = false → Same s (closeIters runF items s).2) := by
+/-- the iterator-close loop: every close is a balanced vm.try; the flag tells whether an uncatchable left -/
+theorem closeIters_spec {runF : RunF} (HA : HypA runF) : ∀ (items : List IterItem) (s : Vm), Inv s →
+    Same s (closeIters runF items s).2 ∧
+    ((closeIters runF items s).1 = false → (closeIters runF items s).2.interrupted = s.interrupted) := by
   intro items
   induction items with
-  | nil => intro s; exact ⟨(Same.refl s).toUpTo, fun _ => Same.refl s⟩
+  | nil => intro s _; exact ⟨Same.refl s, fun _ => rfl⟩
   | cons it rest ih =>
-    intro s
+    intro s hI
     unfold closeIters
     split
-    · have ha := HA it.ret s
+    · have ha := HA it.ret s hI
       generalize runF (.api .try_ it.ret) s = r at ha
       obtain ⟨o, s1⟩ := r
-      obtain ⟨_, hup, hsame⟩ := ha
+      obtain ⟨_, hsame, hq⟩ := ha
+      have hI1 := hsame.inv hI
       cases o <;> simp only
-      · have hs := hsame (by simp)
-        exact ⟨hs.toUpTo.trans (ih s1).1, fun h => hs.trans ((ih s1).2 h)⟩
-      · have hs := hsame (by simp)
-        exact ⟨hs.toUpTo.trans (ih s1).1, fun h => hs.trans ((ih s1).2 h)⟩
-      · exact ⟨hup, by simp⟩
-      · exact ⟨hup, by simp⟩
-      · exact ⟨hup, by simp⟩
-    · exact ih s
+      · have hq' : s1.interrupted = s.interrupted := hq (by simp)
+        exact ⟨hsame.trans (ih s1 hI1).1, fun h => ((ih s1 hI1).2 h).trans hq'⟩
+      · have hq' : s1.interrupted = s.interrupted := hq (by simp)
+        exact ⟨hsame.trans (ih s1 hI1).1, fun h => ((ih s1 hI1).2 h).trans hq'⟩
+      · exact ⟨hsame, by simp⟩
+      · exact ⟨hsame, by simp⟩
+    · exact ih s hI
 
-/-- restoreStacks (vm.go:777): everything but the iterator/reference stacks is untouched; unless an
-iterator close was aborted by an uncatchable the two stacks are cut back to the snapshot. -/
-theorem restoreStacks_spec {runF : RunF} (cfg : Cfg) (HA : HypA runF) (s1 : Vm)
+/-- `_restoreStacks` (vm.go): everything but the iterator/reference stacks is untouched, and those two
+are cut back to the snapshot — also when an iterator close was aborted by an uncatchable. -/
+theorem restoreStacks_spec {runF : RunF} (HA : HypA runF) (doClose : Bool) (s1 : Vm) (hI : Inv s1)
     (bi ei : List IterItem) (br er : List Nat)
     (hi : s1.iterStack = bi ++ ei) (hr : s1.refStack = br ++ er)
-    (r : Bool × Vm) (hdef : r = restoreStacks runF cfg bi.length br.length s1) :
+    (r : Bool × Vm) (hdef : r = restoreStacks runF doClose bi.length br.length s1) :
     r.2.sp = s1.sp ∧ r.2.regs = s1.regs ∧ r.2.stash = s1.stash ∧ r.2.privEnv = s1.privEnv ∧
     r.2.callStack = s1.callStack ∧ r.2.tryStack = s1.tryStack ∧
-    (∃ e, r.2.iterStack = bi ++ e) ∧ (∃ e, r.2.refStack = br ++ e) ∧
-    (r.1 = false ∨ cfg.fixUnwindAbort = true → r.2.iterStack = bi ∧ r.2.refStack = br) := by
-  have hc := closeIters_spec HA (s1.iterStack.drop bi.length).reverse s1
+    r.2.iterStack = bi ∧ r.2.refStack = br ∧
+    (r.1 = false → r.2.interrupted = s1.interrupted) := by
   subst hdef
   unfold restoreStacks
-  generalize closeIters runF (s1.iterStack.drop bi.length).reverse s1 = cl at hc ⊢
-  obtain ⟨hup, hsame⟩ := hc
-  obtain ⟨e1, he1⟩ := hup.is
-  obtain ⟨e2, he2⟩ := hup.rs
-  simp only
-  split
-  · rename_i hcond
-    refine ⟨hup.sp, hup.regs, hup.stash, hup.privEnv, hup.cs, hup.ts, ⟨ei ++ e1, by simp [he1, hi]⟩,
-      ⟨er ++ e2, by simp [he2, hr]⟩, ?_⟩
-    intro h
-    simp at hcond
-    rcases h with h | h
-    · simp [hcond.1] at h
-    · simp [hcond.2] at h
-  · refine ⟨hup.sp, ?_, hup.stash, hup.privEnv, hup.cs, hup.ts, ⟨[], ?_⟩, ⟨[], ?_⟩, fun _ => ⟨?_, ?_⟩⟩
-    · have := hup.regs; simpa [Vm.regs] using this
-    · simp [he1, hi]
-    · simp [he2, hr]
-    · simp [he1, hi]
-    · simp [he2, hr]
-
+  cases doClose with
+  | false => simp [hi, hr, Vm.regs]
+  | true =>
+    have hc := closeIters_spec HA (s1.iterStack.drop bi.length).reverse s1 hI
+    simp only [if_true]
+    generalize closeIters runF (s1.iterStack.drop bi.length).reverse s1 = cl at hc ⊢
+    obtain ⟨hsame, hq⟩ := hc
+    refine ⟨hsame.sp, ?_, hsame.stash, hsame.privEnv, hsame.cs, hsame.ts, ?_, ?_, hq⟩
+    · have := hsame.regs; simpa [Vm.regs] using this
+    · simp [hsame.is, hi]
+    · simp [hsame.rs, hr]
 
 /-- `tf` is (a later state of) the frame that `pushTryFrame` created in state `s0` -/
 structure FrameOf (s0 : Vm) (tf : TryFrame) : Prop where
@@ -191,7 +181,7 @@ structure FrameOf (s0 : Vm) (tf : TryFrame) : Prop where
   stash : tf.stash = s0.stash
   privEnv : tf.privEnv = s0.privEnv
 
-/-- handleThrow skips this frame (vm.go:804) -/
+/-- handleThrow skips this frame (vm.go handleThrow, first `if`) -/
 def skipped (catchable : Bool) (tf : TryFrame) : Bool :=
   isConsumed tf || (!catchable && tf.catchPos != tryPanicMarker)
 
@@ -200,7 +190,8 @@ theorem restoreFrame_spec (s0 s1 : Vm) (tf : TryFrame) (hF : FrameOf s0 tf) (ec 
     (restoreFrame tf s1).sp = s0.sp ∧ (restoreFrame tf s1).regs = s0.regs ∧
     (restoreFrame tf s1).stash = s0.stash ∧ (restoreFrame tf s1).privEnv = s0.privEnv ∧
     (restoreFrame tf s1).callStack = s0.callStack ∧ (restoreFrame tf s1).tryStack = s1.tryStack ∧
-    (restoreFrame tf s1).iterStack = s1.iterStack ∧ (restoreFrame tf s1).refStack = s1.refStack := by
+    (restoreFrame tf s1).iterStack = s1.iterStack ∧ (restoreFrame tf s1).refStack = s1.refStack ∧
+    (restoreFrame tf s1).interrupted = s1.interrupted := by
   unfold restoreFrame
   cases ec with
   | nil =>
@@ -214,21 +205,19 @@ theorem restoreFrame_spec (s0 s1 : Vm) (tf : TryFrame) (hF : FrameOf s0 tf) (ec 
     simp [levelRegs, Ctx.regs] at hregs
     simp_all [Vm.regs, hF.sp, hF.stash, hF.privEnv, hF.cs]
 
-/-- **handleThrow lands on the innermost live frame and restores its snapshot** (vm.go:800). -/
-theorem handleThrowLoop_spec {runF : RunF} (cfg : Cfg) (HA : HypA runF) (catchable : Bool)
-    (s0 : Vm) (tf : TryFrame) (base : List TryFrame) (hF : FrameOf s0 tf)
+/-- **handleThrow lands on the innermost live frame and restores its snapshot** (vm.go handleThrow). -/
+theorem handleThrowLoop_spec {runF : RunF} (HA : HypA runF) (catchable : Bool)
+    (s0 : Vm) (hI : Inv s0) (tf : TryFrame) (base : List TryFrame) (hF : FrameOf s0 tf)
     (hlive : skipped catchable tf = false)
     (hwf : tf.catchPos = tryPanicMarker ∨ tf.catchPos ≥ 0 ∨ tf.finallyPos ≥ 0) :
     ∀ (e : List TryFrame) (s1 : Vm),
       (∀ f ∈ e, skipped catchable f = true) →
       (∃ ec, s1.callStack = s0.callStack ++ ec ∧ levelRegs ec s1 = s0.regs) →
       (∃ ei, s1.iterStack = s0.iterStack ++ ei) → (∃ er, s1.refStack = s0.refStack ++ er) →
-      ∀ r, r = handleThrowLoop runF cfg catchable (e ++ tf :: base) s1 →
+      ∀ r, r = handleThrowLoop runF catchable (e ++ tf :: base) s1 →
       r.2.regs = s0.regs ∧ r.2.stash = s0.stash ∧ r.2.privEnv = s0.privEnv ∧
-      r.2.callStack = s0.callStack ∧
-      (∃ x, r.2.iterStack = s0.iterStack ++ x) ∧ (∃ x, r.2.refStack = s0.refStack ++ x) ∧
-      (r.1 ≠ .aborted ∨ cfg.fixUnwindAbort = true → r.2.iterStack = s0.iterStack ∧ r.2.refStack = s0.refStack) ∧
-      r.1 ≠ .empty ∧
+      r.2.callStack = s0.callStack ∧ r.2.iterStack = s0.iterStack ∧ r.2.refStack = s0.refStack ∧
+      r.1 ≠ .empty ∧ (r.1 ≠ .aborted → r.2.interrupted = s1.interrupted) ∧
       (r.1 = .aborted → r.2.sp = s0.sp ∧ r.2.tryStack = tf :: base) ∧
       (r.1 = .atMarker → tf.catchPos = tryPanicMarker ∧ r.2.sp = s0.sp ∧ r.2.tryStack = tf :: base) ∧
       (r.1 = .caught → tf.catchPos ≥ 0 ∧ r.2.sp = s0.sp + 1 ∧
@@ -255,36 +244,33 @@ theorem handleThrowLoop_spec {runF : RunF} (cfg : Cfg) (HA : HypA runF) (catchab
     have hrf := restoreFrame_spec s0 { s1 with tryStack := tf :: base } tf hF ec hec
       (by simpa [levelRegs, Vm.regs] using hregs)
     generalize restoreFrame tf { s1 with tryStack := tf :: base } = s2 at hrf hr
-    obtain ⟨h1, h2, h3, h4, h5, h6, h7, h8⟩ := hrf
-    have hrs := restoreStacks_spec cfg HA s2 s0.iterStack ei s0.refStack er (by simp [h7, hei]) (by simp [h8, her])
-      (restoreStacks runF cfg tf.iterLen tf.refLen s2) (by rw [hF.is, hF.rs])
-    generalize restoreStacks runF cfg tf.iterLen tf.refLen s2 = rs at hrs hr
+    obtain ⟨h1, h2, h3, h4, h5, h6, h7, h8, h9⟩ := hrf
+    have hI2 : Inv s2 := inv_of_eq h2 h5 hI
+    have hrs := restoreStacks_spec HA catchable s2 hI2 s0.iterStack ei s0.refStack er (by simp [h7, hei]) (by simp [h8, her])
+      (restoreStacks runF catchable tf.iterLen tf.refLen s2) (by rw [hF.is, hF.rs])
+    generalize restoreStacks runF catchable tf.iterLen tf.refLen s2 = rs at hrs hr
     obtain ⟨g1, g2, g3, g4, g5, g6, g7, g8, g9⟩ := hrs
     simp only [Bool.false_eq_true, if_false] at hr
     by_cases hab : rs.1 = true
     · simp only [hab, if_true] at hr
       subst hr
-      refine ⟨g2.trans h2, g3.trans h3, g4.trans h4, g5.trans h5, g7, g8, ?_, by simp, ?_, by simp, by simp, by simp⟩
-      · intro h
-        rcases h with h | h
-        · simp at h
-        · exact g9 (Or.inr h)
-      · intro _
-        exact ⟨g1.trans h1, by simp [g6, h6]⟩
+      refine ⟨g2.trans h2, g3.trans h3, g4.trans h4, g5.trans h5, g7, g8, by simp, by simp, ?_, by simp, by simp, by simp⟩
+      intro _
+      exact ⟨g1.trans h1, by simp [g6, h6]⟩
     · have hab' : rs.1 = false := by simpa using hab
-      obtain ⟨k1, k2⟩ := g9 (Or.inl hab')
+      have hq : rs.2.interrupted = s1.interrupted := (g9 hab').trans (by simpa using h9)
       simp only [hab', Bool.false_eq_true, if_false] at hr
       by_cases hm : (tf.catchPos == tryPanicMarker) = true
       · simp only [hm, if_true] at hr
         subst hr
-        refine ⟨g2.trans h2, g3.trans h3, g4.trans h4, g5.trans h5, g7, g8, fun _ => ⟨k1, k2⟩, by simp, by simp, ?_, by simp, by simp⟩
+        refine ⟨g2.trans h2, g3.trans h3, g4.trans h4, g5.trans h5, g7, g8, by simp, fun _ => hq, by simp, ?_, by simp, by simp⟩
         intro _
         exact ⟨by simpa using hm, g1.trans h1, by simp [g6, h6]⟩
       · simp only [hm, Bool.false_eq_true, if_false] at hr
         by_cases hc : tf.catchPos ≥ 0
         · simp only [hc, if_true] at hr
           subst hr
-          refine ⟨?_, g3.trans h3, g4.trans h4, g5.trans h5, ⟨[], by simp [k1]⟩, ⟨[], by simp [k2]⟩, fun _ => ⟨k1, k2⟩, by simp, by simp, by simp, ?_, by simp⟩
+          refine ⟨?_, g3.trans h3, g4.trans h4, g5.trans h5, g7, g8, by simp, fun _ => hq, by simp, by simp, ?_, by simp⟩
           · have := g2.trans h2; simpa [Vm.regs] using this
           · intro _
             exact ⟨hc, by simp [g1, h1], rfl⟩
@@ -296,7 +282,7 @@ theorem handleThrowLoop_spec {runF : RunF} (cfg : Cfg) (HA : HypA runF) (catchab
             · exact h
           simp only [hfin, if_true] at hr
           subst hr
-          refine ⟨?_, g3.trans h3, g4.trans h4, g5.trans h5, ⟨[], by simp [k1]⟩, ⟨[], by simp [k2]⟩, fun _ => ⟨k1, k2⟩, by simp, by simp, by simp, by simp, ?_⟩
+          refine ⟨?_, g3.trans h3, g4.trans h4, g5.trans h5, g7, g8, by simp, fun _ => hq, by simp, by simp, by simp, ?_⟩
           · have := g2.trans h2; simpa [Vm.regs] using this
           · intro _
             exact ⟨by simpa using hm, hc, by simp [g1, h1], rfl⟩
